@@ -9,6 +9,7 @@ CONSTANTS
   MaxObjs = 1
   Parents = {"none", "str"}
   Fmts = {"F1", "F2"}
+  BadOverrides = FALSE
   SecondReport = FALSE
   Variant = "impl"
 INVARIANT ExactlyOnce
